@@ -1818,7 +1818,8 @@ def _getitem_batch_size(batch_size, index):
                 shape = None
         elif isinstance(idx, np.ndarray):
             if idx.dtype == np.dtype("bool"):
-                shape = torch.Size([idx.sum()])
+                # int(): a numpy integer inside a torch.Size breaks torch.broadcast_shapes
+                shape = torch.Size([int(idx.sum())])
                 boolean = True
             elif idx.ndim:
                 shape = idx.shape
